@@ -90,6 +90,8 @@ def encode(sc):
             out += [101, nid] + pad(e['up'], 6)
         if e.get('req'):
             out += [104, nid] + enc_req6(e['req'])
+        if e.get('gen_pattern'):
+            out += [107, nid] + pad([z + 2 for z in e['gen_pattern']], 6)      # sizes: -1 empty batch, 0 single part, n a batch of n
         for which in ('receive', 'finish', 'shutdown', 'restore'):
             for cb in e.get('on_' + which, []):
                 out += [105, nid, WHICH[which], CBOPS[cb[0]]] + pad(cb[1:], 4)
@@ -169,6 +171,19 @@ def build(sc):
             # state-dependent on purpose (Model/Floor.v wo_cost_now): a surcharge while the machine is shut down
             return self._v_cost + (0 if self.is_operational() else self._v_dur)
 
+    class PatternGen(PartGenerator):
+        """single parts, batches of varying sizes and empty batches, cyclically (Model/Floor.v gen_size)"""
+        def __init__(self, prefix, value, quality, pattern):
+            super().__init__(prefix, value, quality)
+            self.pattern, self.k = list(pattern), 0
+
+        def generate_part_helper(self, part_name, part_counter):
+            n = self.pattern[self.k % len(self.pattern)]
+            self.k += 1
+            if n == 0:
+                return Part(value=self.value, quality=self.quality)
+            return Batch(parts=[Part(value=self.value, quality=self.quality) for _ in range(max(n, 0))])
+
     class BatchGen(PartGenerator):
         def __init__(self, prefix, value, quality, n):
             super().__init__(prefix, value, quality)
@@ -245,7 +260,9 @@ def build(sc):
             o = Buffer(upstream=ups, minimum_delay=e['min_delay'] / TICK, capacity=e['capacity'])
         elif k == 'source':
             n = e.get('gen_batch', 0)
-            if n > 0:
+            if e.get('gen_pattern'):
+                gen = PatternGen('p', e['gen_value'] / TICK, e['gen_quality'] / TICK, e['gen_pattern'])
+            elif n > 0:
                 gen = BatchGen('p', e['gen_value'] / TICK, e['gen_quality'] / TICK, n)
             else:
                 gen = PartGenerator('p', e['gen_value'] / TICK, e['gen_quality'] / TICK)
